@@ -122,7 +122,7 @@ def extract(reg):
             cache_reads[c] = sorted((rs & set(params)) | {x for x in rs if x in params})
         # derived (eager) fields: assigned in new_unchecked / new from something other than the same-named parameter
         derived = {}
-        for ctor in ('new_unchecked', 'new'):
+        for ctor in ('new_unchecked', 'new', 'train'):
             fi = inh.get(ctor)
             if fi is None or fi.fn[4] is None:
                 continue
@@ -251,6 +251,42 @@ def extract(reg):
     return out
 
 
+def extract_enums(root):
+    """text-level scan: every `pub enum` with its attributes and variant names (the parser has no enum support)"""
+    import glob, os
+    out = {}
+    for f in sorted(glob.glob(os.path.join(root, '**', '*.rs'), recursive=True)):
+        rel = os.path.relpath(f, root)
+        src = open(f).read()
+        for m in re.finditer(r'((?:[ \t]*#\[[^\n]*\]\s*\n|[ \t]*///[^\n]*\n)*)[ \t]*pub enum (\w+)[^{;]*\{', src):
+            attrs, name = m.group(1), m.group(2)
+            i = m.end()
+            depth, j = 1, i
+            while j < len(src) and depth:
+                depth += {'{': 1, '}': -1}.get(src[j], 0)
+                j += 1
+            body = src[i:j - 1]
+            # strip nested braces / parens (payloads) and comments, then split on top-level commas
+            body = re.sub(r'//[^\n]*', '', body)
+            flat, d = [], 0
+            for ch in body:
+                if ch in '({[':
+                    d += 1
+                elif ch in ')}]':
+                    d -= 1
+                elif d == 0:
+                    flat.append(ch)
+            variants = []
+            for part in ''.join(flat).split(','):
+                part = re.sub(r'#\s*', '', part).strip()
+                mm = re.match(r'^([A-Z]\w*)', part)
+                if mm:
+                    variants.append(mm.group(1))
+            ra = re.search(r'rename_all\s*=\s*"(\w+)"', attrs)
+            out[name] = {'file': rel, 'variants': variants, 'serde_derive': 'Serialize' in attrs, 'rename_all': ra.group(1) if ra else None}
+    return out
+
+
 def lean_list(xs):
     return '[' + ', '.join(str(x) for x in xs) + ']'
 
@@ -303,5 +339,11 @@ def gen_facts(reg):
                        'serde_proxy': tf.serde_proxy, 'snake_case': bool(tf.rename_all), 'serialized': tf.serialized,
                        'skipped': tf.skipped, 'skip_defaults': tf.skip_defaults}
     out.append('def all : List TypeFacts := [' + ', '.join(names) + ']')
+    out.append('')
+    out.append('/-- serialisable enums: (name, derives Serialize, variants renamed to snake_case) -/')
+    enums = extract_enums(reg.root) if hasattr(reg, 'root') else {}
+    out.append('def enums : List (String × Bool × Bool) := [' + ', '.join(
+        f'("{n}", {"true" if e["serde_derive"] else "false"}, {"true" if e["rename_all"] == "snake_case" else "false"})' for n, e in sorted(enums.items())) + ']')
     out.append('end GenFacts')
+    js['__enums__'] = enums
     return '\n'.join(out) + '\n', js
